@@ -8,6 +8,7 @@ require (
 	github.com/go-jose/go-jose/v4 v4.0.5
 	github.com/zitadel/oidc/v3 v3.0.0
 	golang.org/x/net v0.36.0
+	golang.org/x/oauth2 v0.29.0
 	golang.org/x/text v0.24.0
 )
 
@@ -28,7 +29,6 @@ require (
 	go.opentelemetry.io/otel/metric v1.29.0 // indirect
 	go.opentelemetry.io/otel/trace v1.29.0 // indirect
 	golang.org/x/crypto v0.35.0 // indirect
-	golang.org/x/oauth2 v0.29.0 // indirect
 	golang.org/x/sys v0.30.0 // indirect
 )
 
